@@ -334,7 +334,7 @@ def run(ctx):
     check_format_sites(ctx, "R6")
 
 
-def check_format_sites(ctx, rule, module_filter=None):
+def check_format_sites(ctx, rule, module_filter=None, floor=30):
     facts = ctx.facts
     n = 0
     for s, i, ph in TK.name_format_sites(facts):
@@ -363,4 +363,4 @@ def check_format_sites(ctx, rule, module_filter=None):
             ctx.violation(rule, key, "run-time text `%s` (%s) is formatted directly after `/` into a content/dictionary buffer without a name "
                           "escaper: a value containing whitespace, a delimiter or `#` yields an invalid or different name token"
                           % (arg, cl["type"]), where, {"via": cl["via"]})
-    ctx.floor(rule, "`/{name}` format sites feeding buffers", n, 30)
+    ctx.floor(rule, "`/{name}` format sites feeding buffers", n, floor)
